@@ -226,7 +226,7 @@ def coq_stage(prop):
         where = ("%s:%s %s" % (m.group(1), m.group(2), " ".join(m.group(3).split())[:300])) if m else out.strip()[-300:]
         notes = []
         for gf in ("LeavesUtils.v", "LeavesLine.v", "LeavesSB.v", "LeavesRSN.v", "LeavesRSW.v", "LeavesQV.v",
-                   "FnsBv.v", "FnsRsn2.v", "FnsRsw2.v", "FnsRss.v", "FnsRsq.v", "FnsDa.v", "FnsQwt.v", "FnsQv2.v", "FnsHqwt.v", "FnsWt.v", "FnsBvm.v", "FnsUtils.v", "FnsQvb.v", "FnsQwtnew.v", "FnsWtnew.v", "FnsIters.v", "FnsCraft.v", "FnsCraft2.v", "FnsTiters.v"):
+                   "FnsBv.v", "FnsRsn2.v", "FnsRsw2.v", "FnsRss.v", "FnsRsq.v", "FnsDa.v", "FnsQwt.v", "FnsQv2.v", "FnsHqwt.v", "FnsWt.v", "FnsBvm.v", "FnsUtils.v", "FnsQvb.v", "FnsQwtnew.v", "FnsWtnew.v", "FnsIters.v", "FnsCraft.v", "FnsCraft2.v", "FnsTiters.v", "FnsBvnew.v", "FnsDanew.v"):
             try:
                 first = open(os.path.join(COQ, "theories", "Gen", gf)).readline()
             except OSError:
